@@ -96,6 +96,9 @@ namespace chaiscript {
         case utility::hash("*="): {
           return Opers::assign_product;
         }
+        case utility::hash("/="): {
+          return Opers::assign_quotient;
+        }
         case utility::hash("+="): {
           return Opers::assign_sum;
         }
